@@ -75,13 +75,13 @@ def scenarios(ctx):
     return scn
 
 
-def execute(ctx, scn, events, tids, next_tid):
+def execute(ctx, scn, events, tids, next_tid, data=None):
     core.setup_repo_path()
     from suit_generator.cmd_image import ImageCreator
 
     d = ctx.tmp("upd")
     inp = d / "env.suit"
-    data = content(scn["size"], scn["seed"])
+    data = content(scn["size"], scn["seed"]) if data is None else data   # (the pipeline check G05 supplies real envelopes)
     inp.write_bytes(data)
     st, pf = d / "storage.hex", d / "part.hex"
     err = None
